@@ -404,14 +404,17 @@ class MyPyAstVisitor:
         for lvalue in node.lvalues:
             if isinstance(parent, Class):
                 for assignment in self._parse_attributes(lvalue, node.unanalyzed_type, is_static=True):
-                    assignments.append(assignment)
+                    # A name assigned more than once by one statement (a = a = 1) is one attribute
+                    if all(assignment.name != other.name for other in assignments):
+                        assignments.append(assignment)
             elif isinstance(parent, Function) and parent.name == "__init__":
                 grand_parent = self.__declaration_stack[-2]
                 # If the grandparent is not a class we ignore the attributes
                 if isinstance(grand_parent, Class) and not isinstance(lvalue, mp_nodes.NameExpr):
                     # Ignore non instance attributes in __init__ classes
                     for assignment in self._parse_attributes(lvalue, node.unanalyzed_type, is_static=False):
-                        assignments.append(assignment)
+                        if all(assignment.name != other.name for other in assignments):
+                            assignments.append(assignment)
 
             elif isinstance(parent, Enum):
                 names = []
